@@ -40,6 +40,19 @@ def pdec(tok):
     return out.decode("utf-8", errors="replace")
 
 
+def fnv(text):
+    h = 0x811c9dc5
+    for b in text.encode():
+        h = ((h ^ b) * 0x01000193) & 0xFFFFFFFF
+    return "%08x" % h
+
+
+def print_sx(x):
+    if isinstance(x, list):
+        return "(" + " ".join(print_sx(y) for y in x) + ")"
+    return x
+
+
 def parse_sx(text):
     """returns list of top-level items; atoms are str, lists are python lists; None if unbalanced"""
     stack = [[]]
@@ -148,17 +161,67 @@ def action_malformed(act):
     return False
 
 
-def doomed_markers(script):
-    """unique markers (keys 6dXXXX) written by a script that certainly fails (a top-level `fail`, or a
-    malformed attribute / event anywhere at its top level): their writes must never persist"""
-    if not any(action_malformed(a) for a in script):
-        return []
+def msg_script(m):
+    if not isinstance(m, list) or not m:
+        return None
+    if m[0] in ("exec", "inst") and len(m) > 2:
+        return m[2]
+    if m[0] == "mig" and len(m) > 3:
+        return m[3]
+    return None
+
+
+def msg_certainly_fails(m):
+    sc = msg_script(m)
+    return isinstance(sc, list) and certainly_fails(sc)
+
+
+def certainly_fails(script):
+    """syntactic sufficient condition for "an invocation running this script returns an error":
+    a top-level `fail` / malformed attribute or event; or (when nothing before it can fail) a
+    sub-message that certainly fails and is not caught, or is caught by a reply script that certainly
+    fails. Sub-messages are only dispatched if the script itself succeeds, and earlier siblings may
+    fail first, but then the invocation fails as well — so the condition stays sufficient."""
+    if not isinstance(script, list):
+        return False
+    if any(action_malformed(a) for a in script):
+        return True
+    for a in script:
+        if isinstance(a, list) and a:
+            if a[0] == "sub" and len(a) >= 5 and msg_certainly_fails(a[4]):
+                if a[2] in ("never", "success"):
+                    return True
+                if a[2] in ("always", "error") and certainly_fails(a[3]):
+                    return True
+            if a[0] == "msg" and len(a) >= 2 and msg_certainly_fails(a[1]):
+                return True
+    return False
+
+
+def own_markers(script):
     fail_at = next((i for i, a in enumerate(script) if isinstance(a, list) and a and a[0] == "fail"), len(script))
     res = []
     for a in script[:fail_at]:
         if isinstance(a, list) and len(a) >= 3 and a[0] == "w" and re.fullmatch(r"6d[0-9a-f]{4}", a[1]):
             res.append(a[1])
     return res
+
+
+def subtree_markers(script):
+    res = []
+    sub = []
+    scripts_in_script(script, sub)
+    for s in sub:
+        res += own_markers(s)
+    return res
+
+
+def doomed_markers(script):
+    """unique markers (keys 6dXXXX) written by `script` or anything beneath it, when an invocation of
+    `script` certainly fails: everything it and its sub-messages wrote must be rolled back"""
+    if not certainly_fails(script):
+        return []
+    return subtree_markers(script)
 
 
 def tx_outcome(out):
@@ -191,6 +254,19 @@ def pred_c01(ops, impl):
                     nresp = 0 if out.strip() == "ok" else len(out[3:].split(" / "))
                     if nresp != len(items[2]):
                         return "op %d execute_multi with %d messages returned %d responses" % (n, len(items[2]), nresp)
+                    # the messages ran in the given order: the top-level invocations (script hashes) appear in message order
+                    want = [fnv(print_sx(m[2])) for m in items[2] if isinstance(m, list) and m and m[0] == "exec" and len(m) > 2]
+                    if n + 1 < len(ops) and ops[n + 1] == "trace" and len(want) >= 2:
+                        got = [e.split("|", 1)[0].rsplit("#", 1)[-1] for e in impl[n + 1][6:-1].split(" || ") if e]
+                        pos, okk = 0, True
+                        for w in want:
+                            try:
+                                pos = got.index(w, pos) + 1
+                            except ValueError:
+                                okk = False
+                                break
+                        if not okk:
+                            return "op %d: execute_multi did not run its messages in the given order (invocation order %s, message order %s)" % (n, got[:8], want)
         elif h in READ_OPS or h in ("bind", "bind2", "bindc", "section"):
             pass
         else:
@@ -239,6 +315,27 @@ def pred_c03(ops, impl):
                 if mode == "never" or (mode == "success" and res == "err") or (mode == "error" and res == "ok"):
                     return "reply invoked for sub-message %d (reply_on %s) with result %s (trace of op %d)" % (sid, mode, res, n)
                 seen[(app, sid)] = seen.get((app, sid), 0) + 1
+    # a sub-message that certainly fails, was demonstrably started (its script's invocation is on the
+    # trace) and asked for a reply on error must be followed by that reply
+    for n, (op, out) in enumerate(zip(ops, impl)):
+        if op.split(" ", 1)[0] not in TX_OPS or n + 1 >= len(ops) or ops[n + 1] != "trace":
+            continue
+        items = parse_sx(op)
+        all_scripts = scripts_of_op(items or [])
+        entries = [e for e in impl[n + 1][6:-1].split(" || ") if e]
+        hashes = [e.split("|", 1)[0].rsplit("#", 1)[-1] for e in entries]
+        for sc in all_scripts:
+            for a in sc:
+                if isinstance(a, list) and a and a[0] == "sub" and len(a) >= 5 and a[2] in ("always", "error"):
+                    child = msg_script(a[4])
+                    if isinstance(child, list) and a[4][0] == "exec" and certainly_fails(child) and modes.get(int(a[1])) == {a[2]}:
+                        hc = fnv(print_sx(child))
+                        texts = [print_sx(x) for x in all_scripts]
+                        if hashes.count(hc) == 1 and texts.count(print_sx(child)) == 1:
+                            k = hashes.index(hc)
+                            tail = entries[k + 1:]
+                            if not any((" reply:%s:err" % a[1]) in e for e in tail):
+                                return "op %d: sub-message %s (reply_on %s) ran and failed but no reply with an error result followed" % (n, a[1], a[2])
     for (a, sid), cnt in seen.items():
         uses = sum(1 for op in ops if re.search(r"\(sub %d " % sid, op))
         if cnt > max(1, uses):
